@@ -1037,6 +1037,8 @@ THEOREMS["SaisWidth"] = ["RbV.Thm.C03.sais_width_arms_fit", "RbV.Thm.C03.sais_re
 TRANSLATOR_MODULES.append("rs2lean_genfx")
 GEN_SRC.update({n: gen_src(n) for n in ("SrcFasta", "SrcFastq")})
 EXTRACTORS["C11"] = EXTRACTORS.get("C11", []) + [GEN_SRC[n] for n in ("SrcFasta", "SrcFastq")]
+GEN_SRC.update({n: gen_src(n) for n in ("SrcFastx",)})
+EXTRACTORS["C11"] = EXTRACTORS["C11"] + [GEN_SRC["SrcFastx"]]
 
 
 # genhmm: the generic HMM algorithms (C14) — dialect "hmm" of tools/rs2lean_genhmm.py; Thm/C14.lean imports
